@@ -14,8 +14,8 @@ import (
 // keywords of the URL grammar.
 var reserved = map[string]bool{"id": true, "type": true, "meta": true, "relationships": true, "": true}
 
-var nameInner = []rune("abcr1-_")
-var nameEdge = []rune("abcr1")
+var nameInner = []rune("abcrA1-_")
+var nameEdge = []rune("abcrA1")
 
 // Name draws a JSON:API member name: [a-z0-9] at both ends, '-' and '_' allowed
 // inside, length 1..5, over a deliberately tiny alphabet so that duplicates,
@@ -56,7 +56,7 @@ func NamePool(t *rapid.T, n int, label string) []string {
 
 		mode := 0
 		if len(pool) > 0 {
-			mode = rapid.IntRange(0, 4).Draw(t, label+"-mode")
+			mode = rapid.IntRange(0, 5).Draw(t, label+"-mode")
 		}
 
 		switch mode {
@@ -68,6 +68,13 @@ func NamePool(t *rapid.T, n int, label string) []string {
 
 			if ext == "" {
 				s = base + string(base[len(base)-1])
+			}
+		case 5: // an earlier name in another letter case (names are case-sensitive)
+			base := rapid.SampledFrom(pool).Draw(t, label+"-base")
+			if up := strings.ToUpper(base); up != base {
+				s = up[:1] + base[1:]
+			} else {
+				s = strings.ToLower(base)
 			}
 		case 2: // prefix of an earlier name
 			base := rapid.SampledFrom(pool).Draw(t, label+"-base")
